@@ -152,6 +152,44 @@ func c11LongRuns(r *R) {
 					if g := gogu.Difference(cp(s), one); !eqSlice(g, wantD) {
 						r.Bad("Difference/wrong/long-run", wit, "Difference(s, %v) = %v, want %v", one, g, wantD)
 					}
+					// the other arguments are sets, not multisets: a value that one of them repeats and another
+					// lacks is not in the intersection (round 7: C11-12, a tally of occurrences over all the
+					// other slices once they hold more than 16 elements)
+					without := make([]int, 0, n)
+					for _, v := range base {
+						if v != base[vi] {
+							without = append(without, v)
+						}
+					}
+					twice := append(cp(base), base...)
+					firstHalf := base[:n/2]
+					var wantF []int
+					for _, v := range want {
+						if contains(firstHalf, v) {
+							wantF = append(wantF, v)
+						}
+					}
+					if wantF == nil {
+						wantF = []int{}
+					}
+					for _, c := range []struct {
+						name string
+						args [][]int
+						want []int
+					}{
+						{"s, s, all values but the repeated one", [][]int{cp(s), cp(s), cp(without)}, wantD},
+						{"s, all values but the repeated one, s", [][]int{cp(s), cp(without), cp(s)}, wantD},
+						{"s, s, s, all values but the repeated one", [][]int{cp(s), cp(s), cp(s), cp(without)}, wantD},
+						{"s, all values twice, the first half of the values", [][]int{cp(s), twice, cp(firstHalf)}, wantF},
+						{"all values, all values twice, s, the first half of the values", [][]int{cp(base), twice, cp(s), cp(firstHalf)}, cp(firstHalf)},
+					} {
+						if g := gogu.Intersection(c.args...); !eqSlice(g, c.want) {
+							r.Bad("Intersection/repeats-in-other-arguments/long-run", wit, "Intersection(%s) = %v, want %v", c.name, g, c.want)
+						}
+					}
+					if g := gogu.IntersectionBy(ident, cp(s), cp(s), cp(without)); !sameSet(g, wantD) || len(g) < len(wantD) {
+						r.Bad("IntersectionBy/repeats-in-other-arguments/long-run", wit, "IntersectionBy(id, s, s, all values but the repeated one) = %v, want every element of %v", g, wantD)
+					}
 					// (one iteration order only: enumerating every order of a 40-entry map is out of reach;
 					// the result is compared as a set)
 					if d := gogu.Duplicate(cp(s)); !sameSet(d, one) || len(d) != 1 {
